@@ -224,6 +224,35 @@ def body(ctx: Ctx):
                     report("parse_roundtrip", {"argv": argv}, got, want, {"in_domain": True, "ok": False})
             finally:
                 interface.shutdown(wait=True)
+        # ---- 2b. the composition execute_parallel_tasks makes, repeated in ONE process: interface_bootup(command_lst=
+        # _get_backend_path(cores), ...) for worker after worker — each launch is prefix ++ the worker command of THAT launch
+        from executorlib.interactive import shared as ishared2
+
+        for cores in [2, 2, 1, 3, 2, 1, 2]:
+            PopenRecorder.calls.clear()
+            base = ishared2._get_backend_path(cores=cores)
+            base_copy = list(base)
+            spawner = sp.MpiExecSpawner(cwd=None, cores=cores, openmpi_oversubscribe=False, threads_per_core=1)
+            interface = comm.interface_bootup(command_lst=base, connections=spawner, hostname_localhost=None)
+            try:
+                if len(PopenRecorder.calls) != 1:
+                    report("bootup_popen_count", {"cores": cores}, len(PopenRecorder.calls), 1)
+                    continue
+                argv = PopenRecorder.calls[0]["args"]
+                wc = m.ask("worker_cmd", python=base_copy[0], script=base_copy[1], host=host, port=argv[-1])
+                expect = m.ask("mpiexec_prefix", cores=cores, oversub=False) + wc
+                boot_cases += 1
+                ctx.case({"boot_sequence": cores}, nontrivial=True)
+                ctx.count("boot.sequence_through_get_backend_path")
+                if argv != expect:
+                    so = m.ask("mpi_spec_ok", cores=cores, oversub=False, argv=argv, cmd=wc)
+                    report("bootup_mpiexec", {"req": {"cores": cores}, "launch_in_this_process": boot_cases, "via": "_get_backend_path"},
+                           {"argv": argv}, {"argv": expect}, so)
+                got = parse_arguments(list(argv))
+                if got != {"host": host, "zmqport": argv[-1]}:
+                    report("parse_roundtrip", {"argv": argv}, got, {"host": host, "zmqport": argv[-1]}, {"in_domain": True, "ok": False})
+            finally:
+                interface.shutdown(wait=True)
     finally:
         sp.subprocess.Popen = real_popen
         if real_os is not None:
